@@ -337,6 +337,29 @@ def is_iter_ty(ty):
 
 
 class Interp:
+    def user_fmt(self, v, ty, debug, depth):
+        """`{}` / `{:?}` of a value whose type has a Display / Debug impl in the analysed crates: that impl is walked with a
+        String standing in for the Formatter. None when there is none (or it is a derive, whose layout debug_value knows)."""
+        base = (ty or "").split("<")[0].strip()
+        if not base or "::" not in base:
+            return None
+        want = "core::fmt::Debug" if debug else "core::fmt::Display"
+        for b in self.facts.by_name.get("fmt", ()):
+            if b.get("impl_trait") == want and (b.get("self_ty") or "").split("<")[0] == base and "thir" in b:
+                import facts as _F
+                derived = any("::debug_" in (c.get("fn") or "") for c in _F.exprs(b["thir"], "Call"))
+                buf = {"s": ""}
+                try:
+                    r = self.apply(b, [v, Ref(buf, "s")], depth + 1)
+                except Unknown:
+                    if derived:
+                        return None
+                    raise
+                if isinstance(r, Enum) and r.variant == "Ok":
+                    return buf["s"]
+                raise Unknown("formatting of %r fails" % (v,))
+        return None
+
     def arg_ty(self, a):
         while isinstance(a, dict) and a.get("k") in ("Scope", "Use", "Coerce") and isinstance(a.get("e"), dict) and not a.get("ty"):
             a = a["e"]
@@ -1534,6 +1557,8 @@ class Interp:
                             if fa.debug and "." not in t_ and t_[-1:].isdigit():
                                 t_ += ".0"
                             out.append(t_)
+                        elif isinstance(fa, FmtArg) and isinstance(fv, Enum) and self.user_fmt(fv, fa.ty, fa.debug, depth) is not None:
+                            out.append(self.user_fmt(fv, fa.ty, fa.debug, depth))
                         elif isinstance(fa, FmtArg) and fa.debug:
                             out.append(debug_value(fv, fa.ty))
                         else:
